@@ -1072,9 +1072,11 @@ func (p *Parser) parseAnyClass(expr bool) (classDecl *ClassDecl) {
 
 func (p *Parser) parseClassElement() ClassElement {
 	method := &MethodDecl{}
-	var data []byte // either static, async, get, or set
+	var data []byte     // either static, async, get, or set
+	staticName := false // whether data is the static keyword, which is then the name and not a modifier
 	if p.tt == StaticToken {
 		method.Static = true
+		staticName = true
 		data = p.data
 		p.next()
 		if p.tt == OpenBraceToken {
@@ -1090,6 +1092,7 @@ func (p *Parser) parseClassElement() ClassElement {
 		p.next()
 	} else if p.tt == AsyncToken {
 		data = p.data
+		staticName = false
 		p.next()
 		if !p.prevLT {
 			method.Async = true
@@ -1098,14 +1101,20 @@ func (p *Parser) parseClassElement() ClassElement {
 				data = nil
 				p.next()
 			}
+		} else if p.tt != OpenParenToken && p.tt != EqToken && p.tt != SemicolonToken && p.tt != CloseBraceToken {
+			// async followed by a line terminator is not a modifier but a field name, a semicolon is inserted
+			method.Name.Literal = LiteralExpr{IdentifierToken, data}
+			return ClassElement{Field: Field{Static: method.Static, Name: method.Name}}
 		}
 	} else if p.tt == GetToken {
 		method.Get = true
 		data = p.data
+		staticName = false
 		p.next()
 	} else if p.tt == SetToken {
 		method.Set = true
 		data = p.data
+		staticName = false
 		p.next()
 	}
 
@@ -1117,13 +1126,13 @@ func (p *Parser) parseClassElement() ClassElement {
 			method.Async = false
 			method.Get = false
 			method.Set = false
-		} else {
+		} else if staticName {
 			method.Static = false
 		}
 	} else if data != nil && (p.tt == EqToken || p.tt == SemicolonToken || p.tt == CloseBraceToken) {
 		// (static) field name is: static, async, get, or set
 		method.Name.Literal = LiteralExpr{IdentifierToken, data}
-		if !method.Async && !method.Get && !method.Set {
+		if staticName {
 			method.Static = false
 		}
 		isField = true
